@@ -1,4 +1,5 @@
 import Zeno.Proofs.Disk
+import Zeno.Proofs.DiskProg
 import Zeno.Gen.Disk
 /-!
 # C18 — low-disk guard: threshold semantics are exact and monotone
@@ -98,5 +99,28 @@ theorem c18_alias_counterexample :
     configured { G with msrAliasRule := "copyAlias", msrAliasGetter := "GetInt", msrAliasUnsetConst := 20,
                         msrAliasKeyConst := 20 } (some 20) = 0 := by
   decide +kernel
+
+/-! ### the code as written now
+
+`Gen.DiskProg.facts.checkThreshold` is `checkThreshold` translated statement by statement from the source on every run
+(tools/facts/sec_arith.go), `Model/DiskProg.runCheck` runs it. -/
+
+open Zeno.Model.DiskProg in
+/-- the translated function computes exactly the model's decision, for every volume size, free space and setting
+(including the cases where the float → uint64 conversion is out of range: both are undefined there) -/
+theorem c18_code_is_model (total free : Nat) (msr : Rat) : runCheck P total free msr = refuse G total free msr :=
+  check_translated total free msr
+
+open Zeno.Model.DiskProg in
+/-- exactness, stated over the translated function -/
+theorem c18_exact_code (total free : Nat) (msr : Rat) (hr : specThreshold total msr ≤ 18446744073709551615) :
+    runCheck P total free msr = some (decide ((free : Rat) < specThreshold total msr)) := by
+  rw [check_translated]; exact c18_exact total free msr hr
+
+open Zeno.Model.DiskProg in
+/-- monotonicity, stated over the translated function -/
+theorem c18_monotone_code (total free free' : Nat) (msr : Rat) (hle : free ≤ free')
+    (hr : runCheck P total free' msr = some true) : runCheck P total free msr = some true := by
+  rw [check_translated] at hr ⊢; exact c18_monotone total free free' msr hle hr
 
 end Zeno.Props.C18
